@@ -3,9 +3,80 @@
 package main
 
 import (
+	"github.com/bluenviron/mediamtx/internal/conf"
+	"github.com/bluenviron/mediamtx/internal/defs"
 	"github.com/bluenviron/mediamtx/internal/zzverif/pmlib"
 	"github.com/bluenviron/mediamtx/internal/zzverif/vexplore"
+	"github.com/bluenviron/mediamtx/zzverif/vsched"
 )
+
+// recreateBody: path close in the middle of a publishing session. Reader R1 creates demand on a runOnDemand path
+// (overridePublisher off), publisher A attaches and serves it; then, concurrently, a reload that recreates the
+// path, a write of A, and a new publisher B. The path that goes away must close A before B can become the
+// source of the path of that name.
+func recreateBody(c0, c1 *conf.Conf) func() {
+	return func() {
+		pmlib.Audio = false
+		pmlib.Live = nil
+		pm := pmlib.New(c0, pmlib.AllowAll{}, false)
+		pmlib.Live = pm
+		desc, m, f := pmlib.NewDesc()
+		rdone := make(chan struct{})
+		vsched.Go(func() {
+			defer vsched.Close(rdone)
+			r := &pmlib.Rdr{ID: "R1"}
+			closed := make(chan struct{})
+			r.OnClose = func() { vsched.Close(closed) }
+			res, sr, err := pm.Read(r, "p", m, f)
+			if err != nil {
+				return
+			}
+			vsched.Recv(closed)
+			res.Stream.RemoveReader(sr)
+			vsched.Log("detaching R1")
+			res.Path.RemoveReader(defs.PathRemoveReaderReq{Author: r})
+			vsched.Log("detached R1")
+		})
+		vsched.WaitQuiet() // R1 is on hold, the runOnDemand command has been started
+		a := &pmlib.Pub{ID: "A"}
+		resA, err := pm.Publish(a, "p", desc)
+		if err != nil {
+			vsched.Fail("HARNESS: publisher A refused: %v", err)
+			return
+		}
+		vsched.WaitQuiet()
+		vsched.Log("phase2")
+		var done []chan struct{}
+		task := func(fn func()) {
+			d := make(chan struct{})
+			done = append(done, d)
+			vsched.Go(func() { defer vsched.Close(d); fn() })
+		}
+		task(func() {
+			vsched.Log("reloading")
+			pm.ReloadPathConfs(c1.Paths)
+			vsched.Log("reloaded")
+		})
+		task(func() { pmlib.Write(resA.SubStream, m, f, 'A', 1) })
+		task(func() {
+			b := &pmlib.Pub{ID: "B"}
+			resB, err := pm.Publish(b, "p", desc)
+			if err != nil {
+				return
+			}
+			pmlib.Write(resB.SubStream, m, f, 'B', 1)
+		})
+		for _, d := range done {
+			vsched.Recv(d)
+		}
+		vsched.WaitIdle()
+		vsched.Log("settled %s", pmlib.SnapString(pm))
+		pm.Close()
+		vsched.Log("closed")
+		vsched.Recv(rdone)
+		vsched.Log("end")
+	}
+}
 
 func main() {
 	noOver := pmlib.LoadConf("paths:\n  p:\n    overridePublisher: no\n")
@@ -16,29 +87,49 @@ func main() {
 	scn := []*vexplore.Scenario{
 		{
 			Name: "always-available-override", Desc: "always-available path (one stream outlives its publishers; SubStream.WriteUnit's stale-substream guard): A attached with reader R1, then A writes 2 units while B overrides (2 writes) and R2 attaches",
-			Body: pmlib.PubReadBodyOpt(always, []pmlib.PubSpec{{ID: "A", Writes: 2, Stay: true, Pre: true}, {ID: "B", Writes: 2}}, []pmlib.RdrSpec{{ID: "R1", Pre: true}, {ID: "R2"}}, false, true),
+			Body:  pmlib.PubReadBodyOpt(always, []pmlib.PubSpec{{ID: "A", Writes: 2, Stay: true, Pre: true}, {ID: "B", Writes: 2}}, []pmlib.RdrSpec{{ID: "R1", Pre: true}, {ID: "R2"}}, false, true),
 			Check: pmlib.CheckPublishersOpt(true, true), QuickBound: 1, ThoroughBound: 2, Horizon: 20000, Bg: bg,
 		},
 		{
 			Name: "two-publishers-no-override", Desc: "A attached with reader R, then concurrently: A writes 2 units and leaves, B tries to publish (1 write), reader Q attaches; overridePublisher off",
-			Body: pmlib.PubReadBody(noOver, []pmlib.PubSpec{{ID: "A", Writes: 2, Pre: true}, {ID: "B", Writes: 1}}, []pmlib.RdrSpec{{ID: "R", Pre: true}, {ID: "Q"}}, false),
+			Body:  pmlib.PubReadBody(noOver, []pmlib.PubSpec{{ID: "A", Writes: 2, Pre: true}, {ID: "B", Writes: 1}}, []pmlib.RdrSpec{{ID: "R", Pre: true}, {ID: "Q"}}, false),
 			Check: pmlib.CheckPublishers(false), QuickBound: 2, ThoroughBound: 3, Horizon: 20000, Bg: bg,
 		},
 		{
 			Name: "two-publishers-override", Desc: "A attached with reader R1, then concurrently: A writes 2 units, B overrides (2 writes), reader R2 attaches; overridePublisher on",
-			Body: pmlib.PubReadBody(over, []pmlib.PubSpec{{ID: "A", Writes: 2, Stay: true, Pre: true}, {ID: "B", Writes: 2}}, []pmlib.RdrSpec{{ID: "R1", Pre: true}, {ID: "R2"}}, false),
+			Body:  pmlib.PubReadBody(over, []pmlib.PubSpec{{ID: "A", Writes: 2, Stay: true, Pre: true}, {ID: "B", Writes: 2}}, []pmlib.RdrSpec{{ID: "R1", Pre: true}, {ID: "R2"}}, false),
 			Check: pmlib.CheckPublishers(true), QuickBound: 2, ThoroughBound: 3, Horizon: 20000, Bg: bg,
 		},
 		{
 			Name: "three-publishers-override", Desc: "A, B, C (1 write each) publish concurrently, reader R; overridePublisher on",
-			Body: pmlib.PubReadBody(over, []pmlib.PubSpec{{ID: "A", Writes: 1, Stay: true}, {ID: "B", Writes: 1, Stay: true}, {ID: "C", Writes: 1}}, []pmlib.RdrSpec{{ID: "R"}}, false),
+			Body:  pmlib.PubReadBody(over, []pmlib.PubSpec{{ID: "A", Writes: 1, Stay: true}, {ID: "B", Writes: 1, Stay: true}, {ID: "C", Writes: 1}}, []pmlib.RdrSpec{{ID: "R"}}, false),
 			Check: pmlib.CheckPublishers(true), QuickBound: 1, ThoroughBound: 2, Horizon: 20000, Bg: bg,
 		},
 	}
 	scn = append(scn, &vexplore.Scenario{
 		Name: "always-available-rejected-override", Desc: "always-available path: A attached with reader R1 keeps writing while B, whose tracks are incompatible, tries to override it (A is closed, B refused)",
-		Body: pmlib.PubReadBodyOpt(always, []pmlib.PubSpec{{ID: "A", Writes: 3, Stay: true, Pre: true, QuietBeforeLast: true}, {ID: "B", Writes: 1, Incompatible: true}}, []pmlib.RdrSpec{{ID: "R1", Pre: true}}, false, true),
+		Body:  pmlib.PubReadBodyOpt(always, []pmlib.PubSpec{{ID: "A", Writes: 3, Stay: true, Pre: true, QuietBeforeLast: true}, {ID: "B", Writes: 1, Incompatible: true}}, []pmlib.RdrSpec{{ID: "R1", Pre: true}}, false, true),
 		Check: pmlib.CheckPublishersOpt(true, true), QuickBound: 2, ThoroughBound: 3, Horizon: 20000, Bg: bg,
+	})
+	scn = append(scn, &vexplore.Scenario{
+		Name: "always-available-override-late-remove", Desc: "always-available path: A attached with reader R1; B overrides A and keeps publishing; A, like a real session, sends its RemovePublisher after the path has closed it",
+		Body:  pmlib.PubReadBodyOpt(always, []pmlib.PubSpec{{ID: "A", Writes: 1, Pre: true, RemoveWhenClosed: true}, {ID: "B", Writes: 2, Stay: true, QuietBeforeLast: true}}, []pmlib.RdrSpec{{ID: "R1", Pre: true}}, false, true),
+		Check: pmlib.CheckPublishersOpt(true, true), QuickBound: 2, ThoroughBound: 3, Horizon: 20000, Bg: bg,
+	}, &vexplore.Scenario{
+		Name: "override-late-remove", Desc: "same on an ordinary path, with a reader R2 attaching to B's stream",
+		Body:  pmlib.PubReadBody(over, []pmlib.PubSpec{{ID: "A", Writes: 1, Pre: true, RemoveWhenClosed: true}, {ID: "B", Writes: 2, Stay: true, QuietBeforeLast: true}}, []pmlib.RdrSpec{{ID: "R1", Pre: true}, {ID: "R2"}}, false),
+		Check: pmlib.CheckPublishers(true), QuickBound: 2, ThoroughBound: 3, Horizon: 20000, Bg: bg,
+	})
+	od0 := pmlib.LoadConf("paths:\n  p:\n    overridePublisher: no\n    runOnDemand: vcmd demand\n    runOnDemandStartTimeout: 10s\n    runOnDemandCloseAfter: 10s\n")
+	od1 := pmlib.LoadConf("paths:\n  p:\n    overridePublisher: no\n    maxReaders: 7\n    runOnDemand: vcmd demand\n    runOnDemandStartTimeout: 10s\n    runOnDemandCloseAfter: 10s\n")
+	plain0 := pmlib.LoadConf("paths:\n  p:\n    overridePublisher: no\n")
+	plain1 := pmlib.LoadConf("paths:\n  p:\n    overridePublisher: no\n    maxReaders: 7\n")
+	scn = append(scn, &vexplore.Scenario{
+		Name: "recreate-ondemand-path-vs-publishers", Desc: "runOnDemand path with an active on-demand session (reader R1, publisher A), overridePublisher off: a reload recreates the path while A writes and B publishes; the path that closes must close A before B is accepted on the new one",
+		Body: recreateBody(od0, od1), Check: pmlib.CheckPublishers(false), QuickBound: 2, ThoroughBound: 3, Horizon: 20000, Bg: bg,
+	}, &vexplore.Scenario{
+		Name: "recreate-path-vs-publishers", Desc: "same on a path without on-demand command",
+		Body: recreateBody(plain0, plain1), Check: pmlib.CheckPublishers(false), QuickBound: 2, ThoroughBound: 3, Horizon: 20000, Bg: bg,
 	})
 	scn = append(scn, &vexplore.Scenario{Name: "stream-level-replace", Desc: "stream level (SubStream.WriteUnit stale-substream guard): always-available stream, publisher A (2 writes) replaced by B (1 write) concurrently, reader attached",
 		Body: pmlib.ReplaceBody, Check: pmlib.CheckReplace, QuickBound: 2, ThoroughBound: 3, Horizon: 8000, Bg: bg})
